@@ -111,7 +111,8 @@ def check_case(case) -> tuple[list[Violation], dict]:
         info["labels"].append("snapshot_inside_run" if inside else "snapshot_at_end")
         path = os.path.join(tmp, "snap.pkl")
         nan_obj = sc["objective"]["family"] == "nanhole"  # (ties between NaN values are broken by coin flips: summaries are not comparable)
-        fp = (lambda t: "") if nan_obj else summary_fingerprint
+        # the FULL summary text, timing statistics included: live and loaded tree hold the same samples
+        fp = (lambda t: "") if nan_obj else (lambda t: t.summary())
         d0, s0, c0 = tree_digest(tree), fp(tree), len(live.trace.calls)
         verdict0 = bool(live.inner_gsc(tree))
         r0 = _rng_state()  # taken last: nothing but the dump itself happens between r0 and r1
@@ -169,8 +170,7 @@ def check_case(case) -> tuple[list[Violation], dict]:
         shell.inner_gsc = loaded._gsc.inner
         crashed = None
         try:
-            while not shell.head():
-                loaded.run_step()
+            loaded.run()  # the restored tree is handed to the real run()
         except Exception as e:  # noqa: BLE001
             crashed = e
         shell.finish()
